@@ -178,11 +178,17 @@ fn check(case: &str) -> Option<String> {
             }
         }
         "printer" => {
-            for f in [1e21f64, 1e22, 5e-324, 1.5, 1e-7, 123456.789, f64::MAX, f64::MIN_POSITIVE, 1e23, 0.1, -2.5e-10] {
+            for f in [1e21f64, 1e22, 5e-324, 1.5, 1e-7, 123456.789, f64::MAX, f64::MIN_POSITIVE, 1e23, 0.1, -2.5e-10, 1.0, -250.0, 100.0, 1e15, 0.0, 4294967296.0, 9007199254740992.0, 1e16, 123456789.0] {
+                // every way a number is turned into text: the print functions, Display, and the same inside a list
+                let v = Value::from(f);
+                for (how, t) in [("Display", format!("{}", v)), ("to_string_custom(elisp)", lexpr::to_string_custom(&v, lexpr::print::Options::elisp()).ok()?), ("Display of a list", format!("{}", Value::list(vec![v.clone()]))), ("to_vec", String::from_utf8(lexpr::to_vec(&v).ok()?).ok()?)] {
+                    let back = lexpr::from_str(&t).ok().map(|b| if how == "Display of a list" { b.get(0).cloned().unwrap_or(Value::Nil) } else { b });
+                    match back { Some(b) if b.is_f64() && b.as_f64() == Some(f) => {}, o => return Some(format!("the float {:?} is printed by {} as {:?}, which reads back as {:?}", f, how, t, o)) }
+                }
                 let t = lexpr::to_string(&Value::from(f)).ok()?;
                 match lexpr::from_str(&t) {
                     Ok(v) => match v.as_f64() {
-                        Some(g) if v.is_f64() && (((g - f) / f).abs() <= 2f64.powi(-50)) => {}
+                        Some(g) if v.is_f64() && ((g - f).abs() <= f.abs() * 2f64.powi(-50)) => {}
                         o => return Some(format!("printed {:?} as {:?}, read back {:?}", f, t, o)),
                     },
                     Err(e) => return Some(format!("printed {:?} as {:?}, which does not parse: {}", f, t, e)),
